@@ -111,7 +111,10 @@ def lock_directory_for_cas(directory: Path) -> int | None:
         import fcntl
     except ImportError:  # pragma: no cover - non-POSIX
         return None
-    fd = os.open(directory, os.O_RDONLY)
+    try:
+        fd = os.open(directory, os.O_RDONLY)
+    except OSError:
+        return None
     try:
         fcntl.flock(fd, fcntl.LOCK_EX)
     except OSError:
@@ -215,11 +218,13 @@ def atomic_write_octave(
                 os.fsync(f.fileno())
 
             # TOCTOU protection: recheck base_hash before replace, under an exclusive
-            # advisory lock so that re-check + replace is atomic among cooperating writers
+            # advisory lock so that re-check + replace is atomic among cooperating writers.
+            # Writers without base_hash take the lock for their replace too: otherwise their
+            # install can land between a CAS writer's re-check and its replace.
             lock_fd: int | None = None
             try:
+                lock_fd = lock_directory_for_cas(path_obj.parent)
                 if base_hash and path_obj.exists():
-                    lock_fd = lock_directory_for_cas(path_obj.parent)
                     with open(target_path, encoding="utf-8") as verify_f:
                         verify_content = verify_f.read()
                     verify_hash = compute_hash(verify_content)
